@@ -267,6 +267,8 @@ class Fn:
             return "(" + ", ".join(self.ex(x, env) for x in e[1]) + ")"
         if k == "array":
             return "[" + "; ".join(self.ex(x, env) for x in e[1]) + "]"
+        if k == "field" and e[2] == "await":
+            return self.ex(e[1], env)
         if k == "field":
             t = self.ty(e[1], env)
             if (t, e[2]) in self.fields:
@@ -338,6 +340,8 @@ class Fn:
         if k == "mcall":
             recv, name, args = e[1], e[2], e[3]
             if name in ("copied", "cloned", "clone", "to_owned", "iter", "as_ref", "collect", "to_path_buf", "to_string_lossy", "ok", "as_os_str") and not args:
+                return self.ex(recv, env)
+            if name == "map_err" and len(args) == 1:
                 return self.ex(recv, env)
             if name == "chain" and len(args) == 1:
                 return "(%s ++ %s)" % (self.ex(recv, env), self.ex(args[0], env))
@@ -549,8 +553,17 @@ class Fn:
             e = s[3]
         if e is None:
             return None
-        while e[0] == "try":
-            e = e[1]
+        def strip(x):
+            while True:
+                if x[0] == "try":
+                    x = x[1]
+                elif x[0] == "field" and x[2] == "await":
+                    x = x[1]
+                elif x[0] == "mcall" and x[2] == "map_err":
+                    x = x[1]
+                else:
+                    return x
+        e = strip(e)
         if e[0] == "call" and e[1][0] == "path":
             name = "::".join(e[1][1])
             if name in table:
@@ -663,6 +676,10 @@ class Fn:
             v = s[1][1][1][0]
             tmpl = self.spec["updates"][v + "." + s[1][2]]
             return "let %s := %s in %s" % (self.var(v), self.apply(tmpl, [self.var(v)] + [self.ex(a, env) for a in s[1][3]]), after(env))
+        if k == "let" and s[1][0] == "pbind" and s[3] is not None and self.spec.get("effects"):
+            le = self.effect_of(("expr", s[3], True), env)
+            if le is not None:
+                return "let effs := effs ++ [%s] in let %s := tt in %s" % (le, self.var(s[1][1]), after(dict(env, **{s[1][1]: "()"})))
         eff = self.effect_of(s, env)
         if eff is not None:
             return "let effs := effs ++ [%s] in %s" % (eff, after(env))
@@ -1027,6 +1044,31 @@ def functions():
         return translate_fn(src, "copy_atomic", None, spec, "g_copy_atomic", "(src dst : pexpr)", "list sys")
     out.append(("copy_atomic", "src/bin/copia/bidir.rs copy_atomic", None, t_copy_atomic))
 
+    ow_spec = dict(calls={"tmp_path": ("g_tmp_path", "Path"), "PathBuf::from": ("{0}", "Path")},
+                   effects={"tokio::fs::copy": "OCopy {0} {1}", "tokio::fs::rename": "ORename {0} {1}", "set_local_mtime": "OSetMtime {0} {1}",
+                            "transfer_file_from_remote": "OStream {1} {2}"},
+                   ok=lambda s_: "effs", prologue="let effs := [] in ")
+
+    def t_tmp_path():
+        src = read("src/bin/copia/incremental.rs")
+        spec = dict(signature=[("dst", "Path")], calls={"PathBuf::from": ("{0}", "Path")}, updates={"s.push": "ow_with_suffix {0} {1}"},
+                    strings={".copia-tmp": "OSufStaging"})
+        return translate_fn(src, "tmp_path", None, spec, "g_tmp_path", "(dst : opath)", "opath")
+    out.append(("tmp_path", "src/bin/copia/incremental.rs tmp_path", None, t_tmp_path))
+
+    def t_deliver_local():
+        src = read("src/bin/copia/incremental.rs")
+        spec = dict(ow_spec, signature=[("src", "Path"), ("dst", "Path"), ("mtime", "Option<i64>")])
+        return translate_fn(src, "deliver_local", None, spec, "g_deliver_local", "(src dst : opath) (mtime : option Z)", "list osys")
+    out.append(("deliver_local", "src/bin/copia/incremental.rs deliver_local", None, t_deliver_local))
+
+    def t_deliver_pull():
+        src = read("src/bin/copia/incremental.rs")
+        spec = dict(ow_spec, signature=[("host", "str"), ("remote_file", "str"), ("local_dest", "Path"), ("mtime", "Option<i64>")],
+                    rename={"remote_file": "remote_file"})
+        return translate_fn(src, "deliver_pull", None, spec, "g_deliver_pull", "(host remote_file : list Z) (local_dest : opath) (mtime : option Z)", "list osys")
+    out.append(("deliver_pull", "src/bin/copia/incremental.rs deliver_pull", None, t_deliver_pull))
+
     def t_cas():
         src = read("src/bin/copia/wire.rs")
         check_enum(src, "Cas", ["Commit", "Conflict"])
@@ -1142,6 +1184,7 @@ GROUPS = {
     "Cas": ("", True, ["cas_decide"]),
     "BisyncApply": ("", "bisync", ["apply"]),
     "BisyncSys": ("", "bisyncsys", ["copy_atomic"]),
+    "OneWaySys": ("Model.OneWaySys", "onewaysys", ["tmp_path", "deliver_local", "deliver_pull"]),
     "Archive": ("Model.Archive", "archive", ["archive_load"]),
     "Plan": ("Model.Glob Model.Plan", False, ["needs_transfer", "glob_match", "is_excluded", "build_plan"]),
     "Protocol": ("Model.Checksum Model.Delta Model.Protocol", False, ["from_u8", "hvalidate"]),
@@ -1182,7 +1225,9 @@ def main():
         body = HEADER % (group, imports)
         if group == "Cas":
             body += "\nInductive g_cas := GCommit | GConflict.\n"
-        if digest == "bisyncsys":
+        if digest == "onewaysys":
+            body = (HEADER % (group, imports)) + "\nSection WithPaths.\nContext {K : Type}.\nNotation opath := (@opath K).\nNotation osys := (@osys K).\n\n" + "\n".join(texts) + "End WithPaths.\n"
+        elif digest == "bisyncsys":
             body = ("(** GENERATED by tools/gen_logic.py from /repo's CURRENT source - do not edit.\n    bidir.rs `copy_atomic` as the list of file-system calls it makes, in order; Proofs/TieBisyncSys.v maps them onto\n"
                     "    the steps of Model/BisyncSteps.v. *)\nFrom stdpp Require Import gmap.\nFrom Copia Require Import Model.Bisync Model.BisyncSys.\n\n"
                     "Section WithPaths.\nContext {K : Type}.\nVariable parent_of : @pexpr K -> option (@pexpr K).\nNotation pexpr := (@pexpr K).\nNotation sys := (@sys K).\n\n" + "\n".join(texts) + "End WithPaths.\n")
